@@ -234,6 +234,14 @@ impl Harness {
                     "w32" => cpu.verif_mem_write(4, hx(f[1]) as u32, hx(f[2]) as u32).map(|_| "ok".to_string()).map_err(|_| "err".to_string()),
                     "r16" => cpu.verif_mem_read(2, hx(f[1]) as u32).map(|v| format!("ok:{:x}", v)).map_err(|_| "err".to_string()),
                     "r32" => cpu.verif_mem_read(4, hx(f[1]) as u32).map(|v| format!("ok:{:x}", v)).map_err(|_| "err".to_string()),
+                    "wa" => cpu
+                        .verif_mem_write_abs(hx(f[1]) as u8, hx(f[2]) as u8, hx(f[3]) as u32, hx(f[4]) as u32)
+                        .map(|_| "ok".to_string())
+                        .map_err(|_| "err".to_string()),
+                    "ra" => cpu
+                        .verif_mem_read_abs(hx(f[1]) as u8, hx(f[2]) as u8, hx(f[3]) as u32)
+                        .map(|v| format!("ok:{:x}", v))
+                        .map_err(|_| "err".to_string()),
                     "port" => {
                         cpu.bus.write_port(hx(f[1]) as u8, hx(f[2]) as u8);
                         Ok("ok".to_string())
